@@ -413,7 +413,7 @@ Definition iff_value (c : iff_c) (env : bytes -> bool) : ires bool :=
 
 (* lysp_feature_find() for the module of the C driver: prefix p, no imports, features a b c.
    An unprefixed name must be a, b or c; a name with a colon is split at the first one, the prefix
-   must be empty or p (ly_schema_resolve_prefix accepts the empty prefix), the rest a, b or c. *)
+   must be p (ly_resolve_prefix rejects an empty prefix), the rest a, b or c. *)
 Fixpoint split_colon (w : bytes) (acc : bytes) : option (bytes * bytes) :=
   match w with
   | [] => None
@@ -424,7 +424,7 @@ Definition lookup_abc (w : bytes) : option bytes :=
   match split_colon w [] with
   | None => if is_abc w then Some w else None
   | Some (pfx, name) =>
-      if (beq_bytes pfx [] || beq_bytes pfx [112]) && is_abc name then Some name else None
+      if beq_bytes pfx [112] && is_abc name then Some name else None
   end.
 Definition env_abc (a b c : bool) (w : bytes) : bool :=
   if beq_bytes w [97] then a else if beq_bytes w [98] then b else if beq_bytes w [99] then c else false.
